@@ -3,6 +3,6 @@
    sumor mapped to OCaml's own types; andb/orb inlined).  No Extract Constant / Extract
    Inductive of our own: N, Z, positive and nat stay Coq's inductive types. *)
 From Coq Require Import Extraction ExtrOcamlBasic.
-From Verif Require Import Inflate Compressor Reader.
+From Verif Require Import Inflate Compressor Reader Checked.
 Extraction Language OCaml.
-Extraction "model.ml" inflate wrun rrun.
+Extraction "model.ml" inflate wrun_checked rrun.
